@@ -249,6 +249,18 @@ class ShapeInterp:
             if isinstance(v, ast.List) and not v.elts:
                 self.env[t] = Lst(len(self.loops))
                 return
+            if isinstance(v, ast.ListComp) and len(v.generators) == 1 and not v.generators[0].ifs:
+                # `t = [e for x in seq]` is `t = []` followed by `for x in seq: t.append(e)`
+                g = v.generators[0]
+                init = ast.copy_location(ast.Assign(targets=[ast.Name(id=t, ctx=ast.Store())], value=ast.List(elts=[], ctx=ast.Load()), type_comment=None), s)
+                app = ast.copy_location(ast.Expr(value=ast.Call(func=ast.Attribute(value=ast.Name(id=t, ctx=ast.Load()), attr='append', ctx=ast.Load()),
+                                                                args=[v.elt], keywords=[])), s)
+                loop = ast.copy_location(ast.For(target=g.target, iter=g.iter, body=[app], orelse=[], type_comment=None), s)
+                for x_ in (init, app, loop):
+                    ast.fix_missing_locations(x_)
+                self.stmt(init)
+                self.stmt(loop)
+                return
             if isinstance(v, ast.Call) and src(v.func) == 'len':
                 a = src(v.args[0]).replace(' ', '')
                 m = {'self.measurements': 'M', 'exp_data': 'N', 'timepoints_list[0]': 'T', 'self.timepoints': 'T', 'timepoint_i': 'T'}.get(a)
@@ -355,9 +367,25 @@ def check_likelihood(ctx, cname, data_attr, stochastic):
     f = ctx.fn('inference:%s.set_data' % cname)
     txt = [util.stmt_key(s).replace(' ', '') for s in ast.walk(f) if isinstance(s, ast.stmt)]
     d = f.args.args[1].arg
-    ok = 'species_list=%s.get_measured_species()' % d in txt and 'self.meas_indices[i]=self.m.get_species_index(species_list[i])' in txt and \
-        any(t.startswith('foriinrange(self.M):') or t.startswith('foriinrange(len(species_list)):') for t in
-            [src(s).split('\n')[0].replace(' ', '') for s in ast.walk(f) if isinstance(s, ast.For)])
+    # entry i of the index table is the model index of the i-th *name* in the data object's list of measured species, for every i
+    defs_ = {n_: v_ for n_, v_ in util.single_defs(f).items() if v_ is not None}
+    ok = False
+    for lp_ in [s_ for s_ in ast.walk(f) if isinstance(s_, ast.For) and isinstance(s_.target, ast.Name)]:
+        v_ = lp_.target.id
+        for st_ in lp_.body:
+            if isinstance(st_, ast.Assign) and src(st_.targets[0]).replace(' ', '') == 'self.meas_indices[%s]' % v_ and isinstance(st_.value, ast.Call) \
+                    and src(st_.value.func).replace(' ', '') == 'self.m.get_species_index' and len(st_.value.args) == 1:
+                a_ = st_.value.args[0]
+                if isinstance(a_, ast.Subscript) and isinstance(a_.value, ast.Name) and src(a_.slice) == v_ \
+                        and a_.value.id in defs_ and src(defs_[a_.value.id]).replace(' ', '') == '%s.get_measured_species()' % d:
+                    names = a_.value.id
+                    if isinstance(lp_.iter, ast.Call) and src(lp_.iter.func) == 'range' and len(lp_.iter.args) == 1:
+                        bound = src(util.inline(lp_.iter.args[0], defs_)).replace(' ', '')
+                        m_defs = [src(util.inline(x_.value, defs_)).replace(' ', '') for x_ in ast.walk(f) if isinstance(x_, ast.Assign)
+                                  and src(x_.targets[0]) == 'self.M']
+                        lens = ('len(%s)' % names, 'len(%s)' % src(defs_[names]).replace(' ', ''))
+                        if bound in lens or (bound == 'self.M' and m_defs and all(t_ in lens for t_ in m_defs)):
+                            ok = True
     ctx.ob('R15.2-name-alignment', '%s.set_data' % cname, ok, ctx.loc('inference', f),
            'meas_indices[i] is the model index of the i-th measured species name, for every i', '')
     f = ctx.fn('inference:%s.get_log_likelihood' % cname)
